@@ -20,6 +20,11 @@ func Fill[S ~[]E, E any](slice S, value E) {
 	slice[0] = value
 	for i := 1; i < len(slice); i += i {
 		copy(slice[i:], slice[:i])
+		if i > len(slice)/2 {
+			// that copy reached the end; doubling i again could overflow for
+			// huge slices (of zero-size elements)
+			break
+		}
 	}
 }
 
